@@ -975,6 +975,59 @@ def part_agg(chk, c2m, d, quick):
     return nprobes, findings, agg_code_tie(chk, c2m, d, quick)
 
 
+# ------------------------------------------------------------------ K: control flow (loops x break / continue / goto x side effects)
+def part_ctl(chk, c2m, d, quick):
+    import gen_c07_ctl as KG
+    n = 5 if quick else 150
+    nprobes = 0
+    findings = []
+    for i in range(n):
+        rng = chk.rng('ctl%d' % i)
+        text, feats = KG.generate(rng, nprobes=24)
+        src = os.path.join(d, 'ctl.c')
+        open(src, 'w').write(text)
+        ref, why = reference_run(src, d, 'ctl', False)
+        if ref is None or ref[0] != 0 or len(ref[1].split('\n')) - 1 != 24:
+            raise vlib.BuildError('gen_c07_ctl: program %d is not a valid test (%s)' % (i, why or 'runaway / wrong number of output lines'))
+        res = c2m_runs(c2m, src, d, False)
+        chk.count('K:' + hashlib.sha1(text.encode()).hexdigest(), nontrivial=True, n=24 * len(ENGINES))
+        nprobes += 24
+        for f in feats:
+            chk.dist('K_features', f)
+        if i == 0:
+            chk.sample('control-flow program (loop heads of the first probes): ' + ' | '.join(l.strip() for l in text.split('\n') if re.match(r'\s*(for|while|do|\} while) ', l))[:700])
+        bad = addr_bad_lines(ref[1], res)
+        if bad:
+            findings.append((i, text, bad, ref))
+    seen = set()
+    for i, text, bad, ref in findings[:3]:
+        for pid in sorted(bad)[:2]:
+            eng = bad[pid][0][0]
+            m = re.match(r'k(\d+)$', pid)
+            small = KG.focus(text, int(m.group(1))) if m else text
+            src = os.path.join(d, 'ctlf.c')
+            open(src, 'w').write(small)
+            r2, why = reference_run(src, d, 'ctlf', False)
+            if r2 is None or not prog_disagreements(r2, c2m_runs(c2m, src, d, False, [x for x in ENGINES if ename(x) == eng])):
+                small = text
+            small = shrink_program(c2m, small, d, False, eng)
+            sig = 'ctl:' + hashlib.sha1(small.encode()).hexdigest()[:12]
+            if sig in seen:
+                continue
+            seen.add(sig)
+            open(src, 'w').write(small)
+            r3, _ = reference_run(src, d, 'ctlf', False)
+            r4 = c2m_runs(c2m, src, d, False, [x for x in ENGINES if ename(x) == eng])
+            heads = [l.strip() for l in small.split('\n') if re.search(r'\b(for|while|do|continue|break|goto|switch)\b', l) and not l.startswith('static')]
+            chk.finding(sig, dict(kind='prog', program=small, original=text, use_ext=False, engines=[b[0] for b in bad[pid]],
+                                  what=['%s: c2m prints `%s`' % b for b in bad[pid]], gcc=list(r3 or ref)),
+                        'control flow `%s`: c2m %s prints `%s` (rc %d), gcc `%s` (hash of the executed path, accumulator)'
+                        % (' '.join(heads)[:300], ','.join(b[0] for b in bad[pid]), (r4.get(eng, (0, ''))[1]).strip().replace('\n', ' ')[:100],
+                           r4.get(eng, (0, ''))[0], (r3[1] if r3 else '').strip().replace('\n', ' ')[:100]))
+    chk.dist('K_programs', 'valid', n)
+    return nprobes, findings
+
+
 # ------------------------------------------------------------------ X: aggregates by value across the compiler boundary
 def _tup(x):
     return tuple(_tup(y) for y in x) if isinstance(x, list) else x
@@ -1217,7 +1270,7 @@ def run(chk):
                                 'struct copies, calls, the engines']
     with Scratch() as d:
         c2m, model = tools(d)
-        parts = os.environ.get('C07_PARTS', 'ABFPVX')      # development switch; the registered command runs everything
+        parts = os.environ.get('C07_PARTS', 'ABFPVKX')      # development switch; the registered command runs everything
         n1 = n2 = n3 = n4 = n5 = n6 = 0
         model_breaks = []
         bf_tie = []
@@ -1235,6 +1288,8 @@ def run(chk):
             n7, bad_addr = part_addr(chk, c2m, d, quick)
         if 'V' in parts:
             n8, bad_agg, ct_tie = part_agg(chk, c2m, d, quick)
+        if 'K' in parts:
+            n9, bad_ctl = part_ctl(chk, c2m, d, quick)
         if 'X' in parts:
             n5, bad_abi = part_abi(chk, c2m, d, quick)
         if 'C' in parts or (not quick and 'C07_PARTS' not in os.environ):
@@ -1260,6 +1315,10 @@ def run(chk):
                        'through function pointers, member access on call results incl. members of aggregate type, ?:, comma, assignment values and chains, '
                        'compound literals, variables) used as printed values, initialisers (also as elements of enclosing initialisers), assignment sources, '
                        'return values of helpers with aggregate parameters, in loops and conditions: one line per probe under 7 engine configurations vs gcc; '
+                       'K: control flow: probe functions over every loop kind (for with declaration / expression / empty clauses, while, do-while, loops made '
+                       'of gotos; nested 3 deep) whose conditions and increments have side effects or are constant, with break / continue / goto at every place of '
+                       'the body (also through a switch inside the loop, loops inside switch cases) under data-dependent conditions (first / last iteration, '
+                       'every other, never, always): hash of the executed path + accumulator per probe under 7 engine configurations vs gcc; '
                        'X: aggregates passed / returned by value between c2m code and a gcc-built shared library in both directions '
                        '(direct calls, callbacks, variadic, function pointers) and c2m to c2m: shape (systematic SysV classification '
                        'boundaries + seeded: arrays over eightbytes, nested aggregates, unions, long double, bit-fields, sizes around 16) x '
